@@ -84,13 +84,14 @@ impl McNode {
         processes: HashMap<String, ProcessEntry>,
         trace_handler: Rc<RefCell<TraceHandler>>,
         clock_skew: f64,
+        is_crashed: bool,
     ) -> Self {
         Self {
             name,
             processes,
             trace_handler,
             clock_skew,
-            is_crashed: false,
+            is_crashed,
         }
     }
 
